@@ -177,6 +177,11 @@ func (c *scriptConn) Read(p []byte) (int, error) {
 			l.add(Ev{"ev": "cancel"})
 			c.cancel()
 			continue
+		case "wslow":
+			// (see Write) the reply begins 5/6 N ms after the request was taken
+			c.pos++
+			time.Sleep(time.Duration(st.N*5/6) * time.Millisecond)
+			continue
 		default:
 			c.pos++
 		}
@@ -217,6 +222,9 @@ func (c *scriptConn) Write(b []byte) (int, error) {
 		c.log.add(Ev{"ev": "conn.write", "bytes": ints(b), "err": 1})
 		c.waitDeadline(c.wdl)
 		return 0, os.ErrDeadlineExceeded
+	}
+	if c.pos < len(c.script) && c.script[c.pos].K == "wslow" {
+		time.Sleep(time.Duration(c.script[c.pos].N) * time.Millisecond) // the peer takes the request slowly
 	}
 	c.log.add(Ev{"ev": "conn.write", "bytes": ints(b), "err": 0})
 	return len(b), nil
@@ -336,6 +344,11 @@ func runExchange(c *exchCase, timeoutMs int) []Ev {
 	if c.Defaults == 1 {
 		ec := newExchClient(c.Client, c.Hooks == 1, 0, c.Fault == "notconnected")
 		return ec.run(c, 2000) // what the library documents as its default total read timeout
+	}
+	if len(c.Script) > 0 && c.Script[0].K == "wslow" {
+		// a peer that takes its time: the write of the request takes N ms, the reply begins 5/6 N ms after the request was
+		// taken; the total READ timeout is 4/3 N ms - longer than the reply takes, shorter than write + reply together
+		timeoutMs = c.Script[0].N * 4 / 3
 	}
 	ec := newExchClient(c.Client, c.Hooks == 1, timeoutMs, c.Fault == "notconnected")
 	return ec.run(c, timeoutMs)
